@@ -236,6 +236,12 @@ func (r *rw) post(c *astutil.Cursor) bool {
 		case r.closeCall[n]:
 			r.stats["close"]++
 			c.Replace(call(sel(paren(n.Args[0]), "Close")))
+		case r.fmtPrint(n) != "":
+			// fmt.Print* write to the process's standard output: the simulated one
+			r.stats["stdio"]++
+			fun := n.Fun.(*ast.SelectorExpr)
+			fun.Sel = id("F" + strings.ToLower(fun.Sel.Name[:1]) + fun.Sel.Name[1:])
+			n.Args = append([]ast.Expr{call(r.simrt("Stdout"))}, n.Args...)
 		case r.lenCap[n] != "":
 			m := "Len"
 			if r.lenCap[n] == "cap" {
@@ -275,6 +281,18 @@ func (r *rw) post(c *astutil.Cursor) bool {
 		c.Replace(r.goStmt(n))
 	}
 	return true
+}
+
+func (r *rw) fmtPrint(n *ast.CallExpr) string {
+	fun, ok := n.Fun.(*ast.SelectorExpr)
+	if !ok || !r.ioSeams() || r.pkgOf(fun.X) != "fmt" {
+		return ""
+	}
+	switch fun.Sel.Name {
+	case "Print", "Println", "Printf":
+		return fun.Sel.Name
+	}
+	return ""
 }
 
 // ioSeams: the os seams are applied to non-test files only (tests keep real files).
@@ -592,6 +610,17 @@ func main() {
 	if bad {
 		os.Exit(2)
 	}
+	// package-level variables: every run stands for a fresh process (DESIGN.md §3.1)
+	resetDone := map[string]bool{}
+	for _, p := range pkgs {
+		if strings.HasSuffix(p.ID, ".test") || strings.HasSuffix(p.PkgPath, "_test") {
+			continue
+		}
+		if err := genReset(p, dir, skipDirs, resetDone, total); err != nil {
+			fmt.Fprintln(os.Stderr, "simgen: reset:", p.PkgPath, err)
+			os.Exit(2)
+		}
+	}
 	// go.mod of the copy: require + replace for simrt
 	gm := filepath.Join(dir, "go.mod")
 	b, err := os.ReadFile(gm)
@@ -616,4 +645,178 @@ func main() {
 		fmt.Printf(" %s=%d", k, total[k])
 	}
 	fmt.Println()
+}
+
+// genReset writes zverif_reset.go into the package's directory: a function, registered with simrt and
+// called when a simulated run starts, that puts every package-level variable back to its initial value
+// (zero value or initialiser, in the package's initialisation order). A package-level cache, scratch buffer
+// or counter then cannot carry state from one simulated run to the next: every run is a cold process, as
+// every invocation of the real command is. Packages that have init() functions are left alone (their
+// initial state is not a function of the initialisers alone); they are counted in the summary line.
+func genReset(p *packages.Package, root string, skipDirs []string, doneDirs map[string]bool, total map[string]int) error {
+	var files []*ast.File
+	pdir := ""
+	for i, f := range p.Syntax {
+		if i >= len(p.CompiledGoFiles) {
+			break
+		}
+		fn := p.CompiledGoFiles[i]
+		if !strings.HasPrefix(fn, root+"/") || strings.HasSuffix(fn, "_test.go") {
+			continue
+		}
+		rel := strings.TrimPrefix(fn, root+"/")
+		for _, sd := range skipDirs {
+			if sd != "" && strings.HasPrefix(rel, sd+"/") {
+				return nil
+			}
+		}
+		pdir = filepath.Dir(fn)
+		files = append(files, f)
+	}
+	if pdir == "" || doneDirs[pdir] {
+		return nil
+	}
+	doneDirs[pdir] = true
+	type slot struct {
+		spec *ast.ValueSpec
+		idx  int
+	}
+	vars := map[string]slot{}
+	var order []string // declaration order, for the variables without initialiser
+	for _, f := range files {
+		for _, d := range f.Decls {
+			switch d := d.(type) {
+			case *ast.FuncDecl:
+				if d.Recv == nil && d.Name.Name == "init" {
+					total["packages-with-init-not-reset"]++
+					return nil
+				}
+			case *ast.GenDecl:
+				if d.Tok != token.VAR {
+					continue
+				}
+				for _, sp := range d.Specs {
+					vs := sp.(*ast.ValueSpec)
+					for i, n := range vs.Names {
+						if n.Name != "_" {
+							vars[n.Name] = slot{vs, i}
+							order = append(order, n.Name)
+						}
+					}
+				}
+			}
+		}
+	}
+	if len(vars) == 0 {
+		return nil
+	}
+	imports := map[string]string{}
+	var exprs []ast.Expr
+	show := func(e ast.Expr) (string, error) {
+		var b bytes.Buffer
+		if err := format.Node(&b, p.Fset, e); err != nil {
+			return "", err
+		}
+		exprs = append(exprs, e)
+		return b.String(), nil
+	}
+	var body bytes.Buffer
+	for _, n := range order {
+		sl := vars[n]
+		if len(sl.spec.Values) != 0 {
+			continue
+		}
+		t, err := show(sl.spec.Type)
+		if err != nil {
+			return err
+		}
+		fmt.Fprintf(&body, "\t%s = *new(%s)\n", n, t)
+	}
+	seen := map[*ast.ValueSpec]bool{}
+	for _, in := range p.TypesInfo.InitOrder {
+		var sl slot
+		found := false
+		for _, l := range in.Lhs {
+			if s, ok := vars[l.Name()]; ok && l.Pkg() == p.Types && l.Parent() == p.Types.Scope() {
+				sl, found = s, true
+				break
+			}
+		}
+		if !found || len(sl.spec.Values) == 0 {
+			continue
+		}
+		if len(sl.spec.Values) == len(sl.spec.Names) {
+			for i, n := range sl.spec.Names {
+				if n.Name == "_" || len(in.Lhs) != 1 || in.Lhs[0].Name() != n.Name {
+					continue
+				}
+				v, err := show(sl.spec.Values[i])
+				if err != nil {
+					return err
+				}
+				if sl.spec.Type != nil {
+					t, err := show(sl.spec.Type)
+					if err != nil {
+						return err
+					}
+					fmt.Fprintf(&body, "\t{\n\t\tvar v %s = %s\n\t\t%s = v\n\t}\n", t, v, n.Name)
+				} else {
+					fmt.Fprintf(&body, "\t%s = %s\n", n.Name, v)
+				}
+			}
+			continue
+		}
+		if seen[sl.spec] {
+			continue
+		}
+		seen[sl.spec] = true
+		names := make([]string, len(sl.spec.Names))
+		for i, n := range sl.spec.Names {
+			names[i] = n.Name
+		}
+		v, err := show(sl.spec.Values[0])
+		if err != nil {
+			return err
+		}
+		fmt.Fprintf(&body, "\t%s = %s\n", strings.Join(names, ", "), v)
+	}
+	if body.Len() == 0 {
+		return nil
+	}
+	for _, e := range exprs {
+		ast.Inspect(e, func(n ast.Node) bool {
+			se, ok := n.(*ast.SelectorExpr)
+			if !ok {
+				return true
+			}
+			x, ok := se.X.(*ast.Ident)
+			if !ok {
+				return true
+			}
+			if pn, ok := p.TypesInfo.Uses[x].(*types.PkgName); ok {
+				imports[pn.Name()] = pn.Imported().Path()
+			} else if x.Name == "simrt" && p.TypesInfo.Uses[x] == nil {
+				imports["simrt"] = simrtPath
+			}
+			return true
+		})
+	}
+	imports["simrt"] = simrtPath
+	var src bytes.Buffer
+	fmt.Fprintf(&src, "// Code generated by simgen. DO NOT EDIT.\n\npackage %s\n\nimport (\n", p.Name)
+	names := make([]string, 0, len(imports))
+	for n := range imports {
+		names = append(names, n)
+	}
+	sort.Strings(names)
+	for _, n := range names {
+		fmt.Fprintf(&src, "\t%s %q\n", n, imports[n])
+	}
+	fmt.Fprintf(&src, ")\n\nfunc init() { simrt.RegisterReset(zverifReset) }\n\nfunc zverifReset() {\n%s}\n", body.String())
+	out, err := format.Source(src.Bytes())
+	if err != nil {
+		return fmt.Errorf("%v\n%s", err, src.String())
+	}
+	total["packages-reset"]++
+	return os.WriteFile(filepath.Join(pdir, "zverif_reset.go"), out, 0644)
 }
